@@ -60,9 +60,11 @@ func (s *Sim) Scenario() *ScenarioOut {
 	nb := nonceBook{}
 	out := &ScenarioOut{}
 	pick := r.Intn(11)
+	forced := false
 	if s.ForceScenario > 0 {
-		pick = s.ForceScenario
+		pick = s.ForceScenario - 1
 		s.ForceScenario = 0
+		forced = true
 	}
 	if pick >= 9 {
 		pick = 4 // the proposal life cycle is the longest template: give it more weight
@@ -135,13 +137,16 @@ func (s *Sim) Scenario() *ScenarioOut {
 		period := ap.MinVotingPeriodBlocks()
 		applying := start + period + ap.LazyApplyingBlocks() + int64(r.Intn(2))
 		opts := [][]byte{[]byte(optionPool[r.Intn(len(optionPool))]), []byte(optionPool[r.Intn(len(optionPool))])}
-		if r.Chance(50) { // eligibility-changing parameters: validator membership changes without any stake change
+		if forced || r.Chance(50) { // eligibility-changing parameters: validator membership changes without any stake change
 			el := []string{`{"minValidatorStake":"3000000000000000000"}`, `{"minValidatorStake":"20000000000000000000"}`, `{"maxValidatorCnt":"1"}`, `{"maxValidatorCnt":"2"}`, `{"minValidatorStake":"6000000000000000000"}`}
 			opts[0] = []byte(el[r.Intn(len(el))])
 		}
 		optType := int32(257)
-		if r.Chance(30) {
+		if !forced && r.Chance(30) {
 			optType = 512
+		}
+		if forced {
+			s.QuietAll = true // nothing but the parameter change happens around the applying height
 		}
 		bz := s.specN(nb, v, ctrlertypes.TRX_PROPOSAL, rtypes.ZeroAddress(), nil, &ctrlertypes.TrxPayloadProposal{Message: "s", StartVotingHeight: start,
 			VotingPeriodBlocks: period, ApplyingHeight: applying, OptType: optType, Options: opts}).Build()
@@ -182,7 +187,7 @@ func (s *Sim) Scenario() *ScenarioOut {
 				s.PendingProg[string(p.Init)] = p
 				out.deliver = append(out.deliver, s.specN(nb, us[0], ctrlertypes.TRX_CONTRACT, rtypes.ZeroAddress(), nil, &ctrlertypes.TrxPayloadContract{Data: p.Init}).Build())
 			}
-			s.ForceScenario = 8 // call them in the next scenario slot
+			s.ForceScenario = 9 // call them in the next scenario slot
 			return out
 		}
 		bystander := us[1].Addr
@@ -201,8 +206,18 @@ func (s *Sim) Scenario() *ScenarioOut {
 			}
 		}
 		us := s.userKeys(2)
-		if st == nil || len(us) < 2 {
+		if len(us) < 2 {
 			return nil
+		}
+		if st == nil {
+			// no delegated stake yet: create one and swap it in the next scenario slot
+			v := s.someValidator()
+			if v == nil {
+				return nil
+			}
+			out.deliver = append(out.deliver, s.specN(nb, us[0], ctrlertypes.TRX_STAKING, v.Addr, Rigo(uint64(r.Range(1, 9))), nil).Build())
+			s.ForceScenario = 8
+			return out
 		}
 		joiner := us[0]
 		if string(joiner.Addr) == string(s.Keys[st.Owner].Addr) {
